@@ -103,3 +103,35 @@ def replay_cases(h, cases, name="replay"):
     json.dump(cases, open(p, "w"))
     vlib.run_driver(h, "e2e_replay", out, {"cases": p})
     return out
+
+
+def run_points(h, kinds, cfg, v, cov, tier, keyfn=None, prefix="point"):
+    """Point plans (harness/e2e_point.go): a goroutine of the sending / receiving pipeline is held at one
+    of its blocking operations -- the actions of spec/Pipeline.tla and spec/PipelineRecv.tla, marked by
+    vhook points in pipeline.go -- while a fault, a stop or a pause of one of the given kinds happens, for
+    every point x occurrence x kind; judged like every other run by the observable-level trace spec."""
+    out = os.path.join(vlib.scratch(), prefix + "-" + kinds.replace(",", "-"))
+    s = vlib.run_driver(h, "e2e_points", out, {"shards": 64, "kinds": kinds, "thorough": tier != "quick"}, timeout=3000)
+    files, details = gather(out)
+    kf = keyfn
+    if keyfn is not None:
+        def kf(kind, run, det):
+            pt = ((det.get("case") or {}).get("plan") or {}).get("point") or {}
+            return "%s@%s-%s" % (keyfn(kind, run, det), pt.get("name"), pt.get("kind"))
+    bad, _, st = judge(files, "TransferObs", cfg, v, details, "obs", keyfn=kf, timeout=3000)
+    passed = {k[7:]: s[k] for k in s if k.startswith("passed_")}
+    cov["point_runs"] = cov.get("point_runs", 0) + s["runs"]
+    cov["point_kinds"] = {k[5:]: s[k] for k in s if k.startswith("kind_")}
+    cov["point_hooks_passed"] = passed
+    cov["point_runs_rejected"] = bad
+    cov["traces_validated_against_impl"] = cov.get("traces_validated_against_impl", 0) + s["runs"]
+    want = {"pipeline.read", "pipe.rd.put", "pipe.md.got", "pipe.md.sum", "pipe.enc.got", "pipe.enc.deliver", "pipe.enc.wait",
+            "pipe.snd.got", "pipe.snd.ack", "pipe.ack.got", "pipe.ack.final", "pipe.ack.succ", "pipe.main.select",
+            "pipe.rcv.read", "pipe.rcv.ack", "pipe.rcv.put", "pipe.sack.got", "pipe.sack.final", "pipe.sack.succ",
+            "pipe.dec.read", "pipe.dec.put", "pipe.sav.got", "pipe.sav.done", "pipe.rmain.select"}
+    missing = sorted(want - set(passed))
+    cov["point_hooks_never_passed"] = missing
+    if missing:
+        # the hook points are gone (or renamed): the plans did nothing; not a verdict on the property
+        vlib.log("point plans: hook points never passed: %s" % missing)
+    return s
